@@ -48,6 +48,10 @@ CHECKS = {
   "text": "Seeded search over stacks (1-3 layers of any type, optional AsyncioExecutor on top) over a spy base that records shutdown(*args, **kwargs), workload states at shutdown time (idle, queued, between retries with 1000 s sleeps, polling with 50 s intervals, callable running), racing submitters released by a semantic trigger at shutdown entry, wait True/False, cancel_futures present/absent, repeated shutdown, x schedules. Oracles: refusal with the documented RuntimeError afterwards on every executor of the chain, exactly one shutdown at the base with the same arguments, worker threads gone when shutdown(wait=True) returns, it returns (deadlock / hang detection) and does not wait out a sleep or interval (virtual time), racing submits raise that error or return a future.",
   "note": "Thread liveness is read from the simulator's thread table at the moment shutdown() returns.",
   "design": "10 (C11)"},
+ "C12": {
+  "text": "Seeded search over thread-owning executors (retry, poll, throttle, timeout, thread pool, the shared f_timeout executor; map and cancel-on-shutdown as thread-less controls) x histories of completed / failed / cancelled-in-flight / cancelled-while-queued futures x trigger (shutdown, dropping the last reference with futures dropped / kept / still pending, interpreter-exit hook) at a drawn moment relative to the worker loop x schedules with line-level pre-emption. Oracles: after futures are done and dropped, an explicit gc.collect() leaves no future, callable, argument or result alive (weak references only in the harness) and the executor still serves; every worker thread is gone within 60 virtual seconds of the trigger; futures pending when the executor is dropped still complete with the right outcome.",
+  "note": "gc is disabled during a run and invoked at scheduled points (deterministic weakref callbacks); other threads are given a virtual second to finish the iteration they are in before retention is judged; a failed future kept by the user may pin frames through its traceback (Python semantics) and is excluded from the kept-futures variant.",
+  "design": "10 (C12)"},
 }
 def main():
     checks = []
